@@ -10,6 +10,12 @@ Inductive side := Bef | Aft.
 Inductive pcut (A : Type) := NegInf | C (v : A) (s : side) | PosInf.
 Arguments NegInf {A}. Arguments C {A}. Arguments PosInf {A}.
 
+(* relations are wrapped so that tactics never see through them by accident; the
+   wrapper lives outside the functor so that all instantiations share it *)
+Inductive peq {A} (cmp : A -> A -> comparison) (a b : A) : Prop := peq_intro : cmp a b = Eq -> peq cmp a b.
+Inductive plt {A} (cmp : A -> A -> comparison) (a b : A) : Prop := plt_intro : cmp a b = Lt -> plt cmp a b.
+Inductive ple {A} (cmp : A -> A -> comparison) (a b : A) : Prop := ple_intro : cmp a b <> Gt -> ple cmp a b.
+
 Module CutOrder (V : OrderedTypeFull') <: OrderedTypeFull.
   Module VB := OrdBool V.
   Import VB.
@@ -40,12 +46,12 @@ Module CutOrder (V : OrderedTypeFull') <: OrderedTypeFull.
     end.
 
   (* wrapped in inductives so that tactics never see through them by accident *)
-  Inductive eq_ (a b : cut) : Prop := eq_intro : compare a b = Eq -> eq_ a b.
-  Inductive lt_ (a b : cut) : Prop := lt_intro : compare a b = Lt -> lt_ a b.
-  Inductive le_ (a b : cut) : Prop := le_intro : compare a b <> Gt -> le_ a b.
-  Definition eq := eq_.
-  Definition lt := lt_.
-  Definition le := le_.
+  Definition eq : cut -> cut -> Prop := peq compare.
+  Definition lt : cut -> cut -> Prop := plt compare.
+  Definition le : cut -> cut -> Prop := ple compare.
+  #[global] Arguments eq : simpl never.
+  #[global] Arguments lt : simpl never.
+  #[global] Arguments le : simpl never.
   Lemma eq_iff a b : eq a b <-> compare a b = Eq.
   Proof. split; [intros [H]; exact H | intros H; constructor; exact H]. Qed.
   Lemma lt_iff a b : lt a b <-> compare a b = Lt.
